@@ -20,7 +20,8 @@ RULE = ('Direct calls of the long/short sizer on a real broker: 1-6 assets, sign
         'and (|q|+1)*p > |after|-1, sum|q|*p <= L*E*(1+f) (1e-12 relative slack). Plus an exhaustive small grid. '
         'Non-trivial = both signs present, fee>0 and a short leg whose |after|/p has a fractional part, or a '
         'rejected invalid input.'
-        ' Round-4/5 reach: as C10 (fee model replaced, cash withdrawn, gross_leverage re-set on the live sizer, both sizing keywords through QuantTradingSystem, exact clause with exact multiples, csv part with row order / missing cells / spread / late first source).')
+        ' Round-4/5 reach: as C10 (fee model replaced, cash withdrawn, gross_leverage re-set on the live sizer, both sizing keywords through QuantTradingSystem, exact clause with exact multiples, csv part with row order / missing cells / spread / late first source).'
+        " Round-10 reach: `broker_other_feed` as in C10; the csv part shares C10's sources that raise before their coverage.")
 ASSUMPTIONS = [
     'fee rates with commission + tax <= 1',
     'gross weight either <= 1e-9 (left unscaled by the code; only sign and total bound asserted) or >= 5e-5',
@@ -34,6 +35,13 @@ def run_case(case):
     inv = case.get('invalid')
     weights = dict(case['weights'])
     q, b, dh = build(case)
+    if case.get('broker_other_feed'):
+        # the broker marks positions and fills orders on a feed of its own, quoting other prices; the sizer (and the
+        # trading system that builds it) is given this handler
+        bdh, dh = dh, kit.StubDH()
+        dh.q = dict(bdh.q)
+        for a_, (bid_, ask_) in list(bdh.q.items()):
+            bdh.q[a_] = (bid_ * 1.75, ask_ * 1.75)
     if inv == 'nan_price':
         dh.q.pop(case['nan_asset'], None)
     lev = case['leverage']
@@ -70,7 +78,7 @@ def run_case(case):
             return Result(['rejected_nan_price'], nontrivial=True)
         raise Violation('NaN price was accepted: weights %r prices %r -> %r' % (weights, dh.q, out))
 
-    all_cls, any_nt = [], False
+    all_cls, any_nt = (['broker_on_another_feed'] if case.get('broker_other_feed') else []), False
     fee_now = case['fee']
     vectors = [weights] + [dict(w) for w in case.get('more_weights', [])]
     for call_no, weights in enumerate(vectors):
@@ -230,6 +238,7 @@ def cases(draw):
             sub = assets if draw(st.booleans()) else draw(st.lists(st.sampled_from(assets), min_size=1, unique=True))
             case['more_weights'].append({a: _sweight(draw) for a in sub})
     case['via_qts'] = draw(st.sampled_from([False, False, True]))
+    case['broker_other_feed'] = draw(st.sampled_from([False, False, True]))
     case['both_kwargs'] = draw(st.booleans())      # a shared configuration carrying both sizing keywords
     inv = draw(st.sampled_from([None] * 12 + ['leverage', 'nan_price']))
     if inv == 'leverage':
